@@ -7,8 +7,9 @@ MCSUBS == {0, 50}
 View == <<wn, sub, valid, stale, Len(h)>>
 ASSUME AggregatorOK
 ASSUME PressureOnlyTrans
+ASSUME OptionsOK
 EmitCases == IF "OUT_FILE" \in DOMAIN IOEnv
-             THEN JsonSerialize(IOEnv.OUT_FILE, [c \in 1..Cardinality(Configs) |-> Case(SetToSeq(Configs)[c])])
+             THEN LET seq == SetToSeq(Configs) IN JsonSerialize(IOEnv.OUT_FILE, [c \in DOMAIN seq |-> Case(seq[c])])
              ELSE TRUE
 ASSUME EmitCases
 =============================================================================
